@@ -316,6 +316,7 @@ fn hist_streams(tier: Tier) -> Vec<StreamSpec> {
         stream("hist-chain", tier.n(5, 10_000, 500_000)),
         stream("hist-overfull", tier.n(2, 3_000, 100_000)),
         if tier == Tier::Miri { stream("hist-lens-s", 20) } else { exhaustive("hist-lens", lens_history_count()) },
+        exhaustive("calling-context", 2),
     ]
 }
 
@@ -366,6 +367,14 @@ impl Monitor for C09 {
         hist_streams(tier)
     }
     fn run_case(&self, stream: &str, idx: u64, seed: u64, rec: &mut Recorder) {
+
+        if stream == "calling-context" {
+            let _ = (idx, seed);
+            if !spec::engine::layer().starts_with("miri") {
+                crate::adapt::judge_context(&["C10"], rec);
+            }
+            return;
+        }
         let h = hist_case(stream, idx, seed);
         judge(&h, idx, rec, Which::C09);
         run_siblings(&h, idx, rec, Which::C09);
@@ -399,6 +408,14 @@ impl Monitor for C10 {
         hist_streams(tier)
     }
     fn run_case(&self, stream: &str, idx: u64, seed: u64, rec: &mut Recorder) {
+
+        if stream == "calling-context" {
+            let _ = (idx, seed);
+            if !spec::engine::layer().starts_with("miri") {
+                crate::adapt::judge_context(&["C10"], rec);
+            }
+            return;
+        }
         let h = hist_case(stream, idx, seed);
         judge(&h, idx, rec, Which::C10);
         run_siblings(&h, idx, rec, Which::C10);
